@@ -171,6 +171,9 @@ def check_pair(query, doc):
 
 
 def check_case(case):
+    if "overridden_compile" in case:
+        sh = run_overridden(Shard(PROPERTY), only=case)
+        return sh.violations[0] if sh.violations else None
     if "reconfigured" in case:
         sh = run_reconfigured(Shard(PROPERTY), only=case)
         return sh.violations[0] if sh.violations else None
@@ -207,7 +210,7 @@ def shards(tier):
     out = [{"part": "struct", "i": i, "tier": tier} for i in range(len(c01.SEGMENTS))]
     out += [{"part": "filter", "i": i, "tier": tier} for i in range(len(c02.U_SMALL))]
     out += [{"part": "invalid", "tier": tier}]
-    out += [{"part": "stack", "tier": tier}, {"part": "reconfigured", "tier": tier}]
+    out += [{"part": "stack", "tier": tier}, {"part": "reconfigured", "tier": tier}, {"part": "overridden", "tier": tier}]
     return out
 
 
@@ -362,8 +365,40 @@ def run_reconfigured(sh, only=None):
     return sh
 
 
+def run_overridden(sh, only=None):
+    """an environment subclass that customises the public compile() (here: tolerates blank space
+    around the query): its find / finditer / find_one and the queries it compiles must agree"""
+    class Lenient(impl.jp.JSONPathEnvironment):
+        def compile(self, query):  # noqa: A003
+            return super().compile(query.strip() if isinstance(query, str) else query)
+
+    table = {k: v for k, v in paths(impl.jp, Lenient()).items() if k.startswith("env.")}
+    docs = [{"a": 1, "b": [{"a": 2}]}, [1, [2]], "s"]
+    for q in (" $.a", "$..a ", "\n$[0]\t", "$.a", "  $[?@.a]  ", " $[", "$.a b "):
+        for doc in docs:
+            case = {"overridden_compile": True, "query": q, "doc": impl.jsonable(doc)}
+            if only is not None and only != case:
+                continue
+            obs = observe_with(table, q, doc)
+            sh.states += 1
+            sh.transitions += len(table)
+            sh.traces += len(table)
+            sh.evaluations += 1
+            sh.nontrivial += 1
+            obs["module.find"] = obs["env.compile.find"]
+            obs["_compile_fails"] = obs["env.compile.find"][0] == "err"
+            d = disagreement(obs)
+            if d is not None:
+                sh.violation(violation("entry-points-disagree", case, {"env.compile(q).find": list(map(str, d[1]))[:2]},
+                                       {"path": d[0], "observed": list(map(str, d[2]))[:2]}, "disagree:" + d[0]))
+    sh.sample({"overridden_compile": True, "query": " $.a"}, limit=1)
+    return sh
+
+
 def run_shard(desc):
     sh = Shard(PROPERTY)
+    if desc["part"] == "overridden":
+        return run_overridden(sh)
     if desc["part"] == "stack":
         return run_stack(sh)
     if desc["part"] == "reconfigured":
